@@ -30,8 +30,9 @@ class ReorderedLowLevelWCS(BaseWCSWrapper):
         if sorted(world_order) != list(range(wcs.world_n_dim)):
             raise ValueError(f'world_order should be a permutation of {list(range(wcs.world_n_dim))}')
         self._wcs = wcs
-        self._pixel_order = pixel_order
-        self._world_order = world_order
+        # Kept as lists: a tuple would index the correlation matrix as a multi-dimensional index.
+        self._pixel_order = list(pixel_order)
+        self._world_order = list(world_order)
         self._pixel_order_inv = np.argsort(pixel_order)
         self._world_order_inv = np.argsort(world_order)
 
